@@ -271,7 +271,7 @@ def run_model(cases, timeout=3600):
 
 def run_prep(cases, timeout=3600):
     """{expr} placeholders -> the matcher text the Gallina printer produces (what the real crate is fed)"""
-    if not any("{" in c for c in cases):
+    if not any("{" in c or c.startswith("pm ") for c in cases):
         return cases
     return _run_sharded(MODELRUN, "prep", cases, timeout=timeout, tag="prep")
 
